@@ -76,7 +76,13 @@ impl Runtime {
                 .await
                 .map_err(|e| SpawnBlockingError::Panic(e.into_panic())),
             #[cfg(feature = "async-std_1")]
-            Self::AsyncStd1 => Ok(async_std_1::task::spawn_blocking(f).await),
+            Self::AsyncStd1 => async_std_1::task::spawn_blocking(move || {
+                // async-std hands a panic of the closure on to whoever awaits
+                // the task. Catch it so that it is reported just like on tokio.
+                std::panic::catch_unwind(std::panic::AssertUnwindSafe(f))
+            })
+            .await
+            .map_err(SpawnBlockingError::Panic),
             #[allow(unreachable_patterns)]
             _ => unreachable!(),
         }
